@@ -26,6 +26,7 @@ func runC15(r *engine.Run) {
 	r.Rule("COST-linear", "in the self-recursive decoders (verifyProof, deserializeTrie) no structure-recursive method (one that some node kind implements by calling the same method on a sub-node without a dirty-flag memo guard, e.g. shortNode.Weight) is called on the subtree returned by the recursive call: the work per nesting level is constant, so decoding time is linear in the input")
 	r.Rule("DOM-tracker", "in CreateNode a call SetOriginTracker(non-nil) on the node dominates every return that carries the node: an accepted node can always be re-encoded, hashed and cloned (all go through the tracker)")
 	r.Rule("NIL-result", "in core/util and core/util/wmpt, at every call of a function of the decoder closure that returns a pointer or interface value together with an error, every dereferencing use of the value (method called on it, field read, unchecked type assertion; also through the field it is stored into) is reached only where that error tested nil or the value tested non-nil: on malformed bytes the decoders return nil with the error")
+	r.Rule("AGREE-decode", "see C10: DeserializeNode rebuilds every node kind with all its parts - in particular a shared-prefix node always gets a value reference (hash and weight) or is rejected: a decoded node with a nil part panics in Serialize, Weight and the walks")
 	r.NotDec = append(r.NotDec, "behaviour of the CBOR and msgp libraries on hostile input (third-party code)")
 	entries := decoderEntries(r)
 	if len(entries) < 8 {
@@ -64,6 +65,7 @@ func runC15(r *engine.Run) {
 	both = append(both, funcsOfPkg(r, pkgUtil)...)
 	both = append(both, funcsOfPkg(r, pkgWMPT)...)
 	nilResult(r, "NIL-result", both)
+	agreeDecode(r, "AGREE-decode")
 	costLinear(r, "COST-linear")
 	domTracker(r, "DOM-tracker")
 }
